@@ -1,3 +1,276 @@
-/- C08: property theorems (stub — not built yet) -/
+import RSVerif.Lemmas.Offsets
+/-
+C08 — Offsets reported to the source are exactly "start offset + bytes consumed".
+
+Model: `RSVerif.Offsets` (Model/Offsets.lean), the code after `fixes/C08-ack-offset.patch`; the pinned code is
+`stepPinned` (counterexamples at the end). Every theorem quantifies over ALL event histories `h`
+(`recv k | tick | staleTick c | waitFullClosed | connDrop | reopenFail | quietHour | reconnect reply`, any order, any
+length: idle periods, bursts, drops and reconnects at any point, ACK goroutines that outlive their
+connection) and all start offsets; `s0` ranges over the states in which the incremental phase can start
+(`Started`: runIncrementalSync on an established connection, or right after the handshake of sendPSyncCmd).
+
+"Bytes received so far" is measured independently of the counters of the code: it is the number of stream
+bytes that have been written to the pipe (`pipe.length`).
+
+`0 ≤ start` (replication offsets announced by a Redis source are non-negative) is needed wherever the
+keep-alive `REPLCONF ACK 0` (sent while the full sync is still running) or the `-1` sentinel of
+SendPSyncContinue could otherwise interfere; `ack_exact` and `tag_base_constant` hold for every integer.
+-/
 namespace RSVerif.Properties.C08
+open RSVerif RSVerif.Offsets
+
+/-- The constants of the source, regenerated on every run, are the ones the property speaks of:
+    `if offset != -1 { offset += 1 }`, `offset - 1` on +CONTINUE, `REPLCONF ACK 0` while waiting. -/
+theorem code_constants : Consts.code.ok := by
+  unfold Consts.ok Consts.code
+  decide
+
+/-- The driver validates the traces of the real code against the model instantiated with the constants as
+    the property states them (`Consts.spec`); they are the constants of the code the theorems are about. -/
+theorem code_eq_spec : Consts.code = Consts.spec := by
+  unfold Consts.code Consts.spec
+  decide
+
+/-- States in which the incremental phase starts with announced offset `start` and run id `rid`:
+    nothing received yet, copy loop running on connection 0, the source about to send offset `start + 1`,
+    and no ACK sent so far (the handshake output, if any, is in `out`). -/
+def Started (start : Int) (rid : Bytes) (s0 : St) : Prop :=
+  ∃ o0, acksOf o0 = [] ∧ s0 = { init start rid with out := o0 }
+
+theorem started_init (start : Int) (rid : Bytes) : Started start rid (init start rid) :=
+  ⟨[], rfl, rfl⟩
+
+/-- sendPSyncCmd answered `+FULLRESYNC rid' off`: the phase starts at the announced `off` with run id `rid'`,
+    whatever offset the tool had before. -/
+theorem started_begin_full (inOff : Int) (rid rid' : Bytes) (off : Int) :
+    Started off rid' (begin Consts.code inOff rid (.full rid' off)) :=
+  ⟨[.psync 0 rid (psyncArg Consts.code inOff)], rfl, rfl⟩
+
+/-- sendPSyncCmd answered `+CONTINUE`: the phase starts at the offset the tool came with. -/
+theorem started_begin_cont (inOff : Int) (rid : Bytes) (h : 0 ≤ inOff) :
+    Started inOff rid (begin Consts.code inOff rid .cont) := by
+  refine ⟨[.psync 0 rid (psyncArg Consts.code inOff)], rfl, ?_⟩
+  have hk := code_constants
+  have h1 : psyncArg Consts.code inOff = inOff + 1 := psyncArg_ok hk h
+  simp only [begin, h1, hk.2.2.1]
+  have e : inOff + 1 - 1 = inOff := by omega
+  rw [e]
+  rfl
+
+/-- the first PSYNC of sendPSyncCmd asks for the offset after the one the tool has (`-1` stays `-1`). -/
+theorem first_psync (inOff : Int) (rid : Bytes) (r : Reply0) (h : 0 ≤ inOff) :
+    (begin Consts.code inOff rid r).out = [.psync 0 rid (Spec.Offsets.psyncOffset inOff 0)] := by
+  have h1 : psyncArg Consts.code inOff = inOff + 1 := psyncArg_ok code_constants h
+  cases r <;> simp [begin, h1, init, Spec.Offsets.psyncOffset]
+
+private theorem started_inv {start : Int} {rid : Bytes} {s0 : St} (h : Started start rid s0) :
+    Inv start rid s0 ∧ InvS start s0 ∧ InvA start s0 := by
+  obtain ⟨o0, ha, rfl⟩ := h
+  refine ⟨⟨rfl, rfl, rfl⟩, ⟨rfl, fun _ _ => by simp [init]⟩, ⟨?_, ?_, ?_⟩⟩ <;> simp [acks, ha]
+
+/-- what `step` appends to the log of the source is `emitted` (so the theorems below, stated on
+    `emitted`, speak of every line the source ever reads). -/
+theorem out_is_emitted (s : St) (e : Ev) :
+    (step Consts.code s e).out = s.out ++ emitted Consts.code s e := out_step _ s e
+
+/-- **ack_exact.** Every `REPLCONF ACK n` sent once the full sync is over — by the ACK goroutine of the
+    current connection or by one that outlived an earlier connection, after any history — carries
+    n = start + number of stream bytes received so far. -/
+theorem ack_exact (start : Int) (rid : Bytes) (s0 : St) (h0 : Started start rid s0) (h : List Ev) (e : Ev)
+    (c : Nat) (n : Int) :
+    let s := run Consts.code s0 h
+    Out.ack c n ∈ emitted Consts.code s e → s.waitFull = true →
+      n = Spec.Offsets.ackOffset start s.pipe.length := by
+  intro s hm hw
+  have hi := inv_run (K := Consts.code) (started_inv h0).1 h
+  rw [mem_emitted_ack hm]
+  simp only [ackValue, hw, if_true, Spec.Offsets.ackOffset]
+  rw [hi.base, hi.len]
+
+/-- while the full sync is still running the goroutine sends the keep-alive `REPLCONF ACK 0`
+    (a Redis source only ever raises its record of a replica's offset, so 0 acknowledges nothing). -/
+theorem ack_waiting (s : St) (e : Ev) (c : Nat) (n : Int) :
+    Out.ack c n ∈ emitted Consts.code s e → s.waitFull = false → n = 0 := by
+  intro hm hw
+  rw [mem_emitted_ack hm]
+  simp [ackValue, hw, code_constants.2.2.2]
+
+/-- **ack_monotone.** The sequence of all acknowledged offsets never decreases, and no acknowledged
+    offset is ahead of what has been received (at the end of the history, hence — the count only grows
+    and `ack_exact` — at the moment it was sent). -/
+theorem ack_monotone (start : Int) (rid : Bytes) (s0 : St) (h0 : Started start rid s0) (hs : 0 ≤ start)
+    (h : List Ev) :
+    let s := run Consts.code s0 h
+    (acks s).Pairwise (· ≤ ·) ∧ ∀ n ∈ acks s, n ≤ Spec.Offsets.ackOffset start s.pipe.length := by
+  intro s
+  obtain ⟨hb, _, ha⟩ := started_inv h0
+  have hi := inv_run (K := Consts.code) hb h
+  have hA := invA_run code_constants hs hb ha h
+  refine ⟨hA.sorted, ?_⟩
+  intro n hn
+  have := hA.le n hn
+  simp only [Spec.Offsets.ackOffset]
+  rw [hi.len]
+  exact this
+
+/-- an acknowledgement is never ahead of what had been received when it was sent. -/
+theorem ack_never_ahead (start : Int) (rid : Bytes) (s0 : St) (h0 : Started start rid s0) (hs : 0 ≤ start)
+    (h : List Ev) (e : Ev) (c : Nat) (n : Int) :
+    let s := run Consts.code s0 h
+    Out.ack c n ∈ emitted Consts.code s e → n ≤ Spec.Offsets.ackOffset start s.pipe.length := by
+  intro s hm
+  cases hw : s.waitFull
+  · rw [ack_waiting s e c n hm hw]
+    simp only [Spec.Offsets.ackOffset]
+    omega
+  · rw [ack_exact start rid s0 h0 h e c n hm hw]
+    exact Int.le_refl _
+
+/-- **reconnect_offset.** Every `PSYNC` sent after the start — they are sent by reconnects only, as first
+    command of the next connection — asks for the run id of the sync and for the offset
+    start + received + 1, the first byte not yet received. -/
+theorem reconnect_offset (start : Int) (rid : Bytes) (s0 : St) (h0 : Started start rid s0) (hs : 0 ≤ start)
+    (h : List Ev) (e : Ev) (c : Nat) (r : Bytes) (off : Int) :
+    let s := run Consts.code s0 h
+    Out.psync c r off ∈ emitted Consts.code s e →
+      (∃ rep, e = .reconnect rep) ∧ c = s.conn + 1 ∧ r = rid ∧
+        off = Spec.Offsets.psyncOffset start s.pipe.length := by
+  intro s hm
+  have hi := inv_run (K := Consts.code) (started_inv h0).1 h
+  obtain ⟨he, _, _, hc, hr, ho⟩ := mem_emitted_psync hm
+  refine ⟨he, hc, by rw [hr, hi.rid], ?_⟩
+  rw [ho, hi.base, psyncArg_ok code_constants (by omega), Spec.Offsets.psyncOffset, hi.len]
+
+/-- **tag_base_constant.** The base that parseSourceCommand adds to the decoder position
+    (`ds.sourceOffset`) is the announced start offset after every history. -/
+theorem tag_base_constant (start : Int) (rid : Bytes) (s0 : St) (h0 : Started start rid s0) (h : List Ev) :
+    tagBase (run Consts.code s0 h) = start :=
+  (inv_run (K := Consts.code) (started_inv h0).1 h).base
+
+/-- **stream_continues.** After every history the pipe holds exactly the stream bytes with offsets
+    start+1, start+2, …, start+received, in order: nothing lost, nothing duplicated, at any seam. -/
+theorem stream_continues (start : Int) (rid : Bytes) (s0 : St) (h0 : Started start rid s0) (hs : 0 ≤ start)
+    (h : List Ev) :
+    let s := run Consts.code s0 h
+    s.pipe = Spec.Offsets.streamOffsets start s.pipe.length := by
+  intro s
+  obtain ⟨hb, hS, _⟩ := started_inv h0
+  have hi := inv_run (K := Consts.code) hb h
+  have hp := (invS_run code_constants hs hb hS h).pipe
+  rw [hi.len]
+  simp only [Spec.Offsets.streamOffsets]
+  rw [← offsFrom_eq_map]
+  exact hp
+
+/-- the seam itself: a reconnect answered +CONTINUE makes the source resume at the offset right after the
+    last byte in the pipe, and the next bytes received are appended from exactly there. -/
+theorem seam_exact (start : Int) (rid : Bytes) (s0 : St) (h0 : Started start rid s0) (hs : 0 ≤ start)
+    (h : List Ev) (k : Nat) :
+    let s := run Consts.code s0 h
+    s.up = false → s.dead = false →
+      let s' := step Consts.code s (.reconnect .cont)
+      s'.srcNext = Spec.Offsets.streamOffset start (s.pipe.length + 1) ∧
+      (step Consts.code s' (.recv k)).pipe = s.pipe ++ offsFrom (start + s.pipe.length + 1) k := by
+  intro s hu hd s'
+  obtain ⟨hb, hS, _⟩ := started_inv h0
+  have hi := inv_run (K := Consts.code) hb h
+  have hnext : s'.srcNext = start + s.pipe.length + 1 := by
+    have := psyncArg_ok code_constants (x := s.sourceOffset + s.received) (by rw [hi.base]; omega)
+    simp only [s', step, hu, hd, Bool.or_self, Bool.false_eq_true, if_false, beq_self_eq_true, if_true, this]
+    rw [hi.base, hi.len]
+  have hup : s'.up = true ∧ s'.streaming = true ∧ s'.dead = false ∧ s'.pipe = s.pipe := by
+    simp [s', step, hu, hd]
+  refine ⟨by rw [hnext, Spec.Offsets.streamOffset]; omega, ?_⟩
+  simp only [step, hup.1, hup.2.1, hup.2.2.1, hup.2.2.2, hnext]
+  simp
+
+/-- **tag_exact.** The offset stored with a command that ends at the pos-th byte read from the pipe
+    (C10: the decoder position is exactly the number of bytes consumed) is the absolute replication offset
+    of that byte. -/
+theorem tag_exact (start : Int) (rid : Bytes) (s0 : St) (h0 : Started start rid s0) (hs : 0 ≤ start)
+    (h : List Ev) (pos : Nat) :
+    let s := run Consts.code s0 h
+    0 < pos → pos ≤ s.pipe.length →
+      s.pipe[pos - 1]? = some (tag s pos) ∧ tag s pos = Spec.Offsets.streamOffset start pos := by
+  intro s hp hl
+  obtain ⟨hb, hS, _⟩ := started_inv h0
+  have hi : Inv start rid s := inv_run (K := Consts.code) hb h
+  have hpipe : s.pipe = offsFrom (start + 1) s.received := (invS_run code_constants hs hb hS h).pipe
+  have ht : tag s pos = start + pos := by simp only [tag, tagBase]; rw [hi.base]
+  have hlt : pos - 1 < s.received := by rw [← hi.len]; omega
+  refine ⟨?_, by rw [ht, Spec.Offsets.streamOffset]⟩
+  rw [hpipe, getElem?_offsFrom _ _ _ hlt, ht]
+  congr 1
+  omega
+
+/-- a refused re-PSYNC and a failed dial change no offset: the next request repeats the same offset. -/
+theorem refused_keeps_offsets (s : St) (e : Ev) (he : e = .reopenFail ∨ e = .quietHour ∨ e = .reconnect .err) :
+    let s' := step Consts.code s e
+    s'.sourceOffset = s.sourceOffset ∧ s'.received = s.received ∧ s'.pipe = s.pipe := by
+  rcases he with rfl | rfl | rfl
+  · exact ⟨rfl, rfl, rfl⟩
+  · simp only [step]
+    split <;> exact ⟨rfl, rfl, rfl⟩
+  · simp only [step]
+    split <;> exact ⟨rfl, rfl, rfl⟩
+
+/-! ### non-vacuity: concrete histories with every kind of event -/
+
+/-- bursts, idle ticks, a keep-alive before the full sync ends, two drops, an ACK goroutine that outlives
+    its connection, a failed dial, a refused and an accepted re-PSYNC. -/
+example :
+    (run Consts.code (init 1000 [1, 2])
+      [.recv 4, .tick, .waitFullClosed, .recv 6, .tick, .tick, .connDrop, .staleTick 0, .reopenFail,
+       .reconnect .err, .recv 9, .tick, .connDrop, .reconnect .cont, .recv 5, .staleTick 0, .tick]).out
+      = [.ack 0 0, .ack 0 1010, .ack 0 1010, .ack 0 1010, .psync 1 [1, 2] 1011, .ack 1 1010,
+         .psync 2 [1, 2] 1011, .ack 0 1015, .ack 2 1015] := by decide
+
+example :
+    (run Consts.code (init 1000 [])
+      [.waitFullClosed, .recv 2, .connDrop, .reconnect .cont, .recv 3]).pipe = [1001, 1002, 1003, 1004, 1005] := by
+  decide
+
+/-- the fourth broken connection within the hour aborts the process; nothing is sent afterwards. -/
+example :
+    let s := run Consts.code (init 5 [])
+      [.connDrop, .reconnect .cont, .connDrop, .reconnect .cont, .connDrop, .reconnect .cont, .connDrop,
+       .reconnect .cont, .tick]
+    s.dead = true ∧ s.out = [.psync 1 [] 6, .psync 2 [] 6, .psync 3 [] 6] := by decide
+
+/-- … unless an hour without retries lies in between. -/
+example :
+    let s := run Consts.code (init 5 [])
+      [.connDrop, .reconnect .cont, .connDrop, .reconnect .cont, .connDrop, .quietHour, .reconnect .cont,
+       .connDrop, .reconnect .cont, .waitFullClosed, .recv 2, .tick]
+    s.dead = false ∧ s.out = [.psync 1 [] 6, .psync 2 [] 6, .psync 3 [] 6, .psync 4 [] 6, .ack 4 7] := by decide
+
+example : Started 7 [9] (begin Consts.code (-1) [] (.full [9] 7)) := started_begin_full _ _ _ _
+
+example : (begin Consts.code 41 [3] .cont).out = [.psync 0 [3] 42] := by decide
+
+/-! ### the pinned code (before the repair): kernel-checked counterexamples, replayed on the real code
+    by the first cases of `go/harness/c08.go` -/
+
+/-- D9. History `recv 10; tick; tick` with start 1000: the pinned ACK goroutine adds the cumulative
+    `nread` on every tick, so it acknowledges 1010 and then 1020 although only 10 bytes were received;
+    the base used for command tags has moved to 1020. -/
+theorem counterexample_ack :
+    let s := runPinned Consts.code (initPinned 1000 []) [.waitFullClosed, .recv 10, .tick, .tick]
+    s.out = [.ack 0 1010, .ack 0 1020] ∧ s.pipe.length = 10 ∧ s.sourceOffset = 1020 ∧
+      Spec.Offsets.ackOffset 1000 10 = 1010 := by decide
+
+/-- a drop before the first tick after traffic: the pinned code re-asks for offset 1001 although it has
+    received up to 1010, so ten bytes arrive twice. -/
+theorem counterexample_reconnect :
+    let s := runPinned Consts.code (initPinned 1000 [])
+      [.waitFullClosed, .recv 10, .connDrop, .reconnect .cont, .recv 1]
+    s.out = [.psync 1 [] 1001] ∧ s.pipe.getLast? = some 1001 ∧ s.pipe.length = 11 ∧
+      Spec.Offsets.psyncOffset 1000 10 = 1011 := by decide
+
+/-- two ticks, then a drop: the pinned code asks for 1021 and skips ten bytes. -/
+theorem counterexample_reconnect_skip :
+    let s := runPinned Consts.code (initPinned 1000 [])
+      [.waitFullClosed, .recv 10, .tick, .tick, .connDrop, .reconnect .cont, .recv 1]
+    s.out = [.ack 0 1010, .ack 0 1020, .psync 1 [] 1021] ∧ s.pipe.getLast? = some 1021 := by decide
+
 end RSVerif.Properties.C08
